@@ -755,6 +755,29 @@ theorem exSepP : Sep exEps [600, 800] := by
 example := sigma_pressure_roundtrip exEps_nonneg exSepSigma exSepP (by simp) (by simp) 1000 2 5
   (by norm_num) (by intro p hp; simp at hp; rcases hp with rfl | rfl <;> norm_num)
 
+-- hybrid → sigma (non-vacuity of `hybridToSigma_affine`): four hybrid boundaries `a/sp + b` with a genuinely
+-- surface-pressure dependent part (`a ≠ 0`), three uneven centres, `sp = 1000`
+theorem exHybridCenters :
+    hybridCenters ([0, 100, 50, 0] : List ℚ) [0, 1 / 10, 1 / 2, 1] 1000 = [1 / 10, 3 / 8, 31 / 40] := by
+  decide +kernel
+
+theorem exSepHybrid : Sep exEps (hybridCenters ([0, 100, 50, 0] : List ℚ) [0, 1 / 10, 1 / 2, 1] 1000) := by
+  rw [exHybridCenters]
+  intro j hj
+  have : j = 0 ∨ j = 1 := by simp at hj; omega
+  rcases this with rfl | rfl <;> norm_num [exEps]
+
+-- the hypotheses of `hybridToSigma_affine` hold on this configuration (any target sigma levels, any affine field)
+example (sigmaC : List ℚ) (α β : ℚ) :=
+  hybridToSigma_affine exEps_nonneg [0, 100, 50, 0] [0, 1 / 10, 1 / 2, 1] sigmaC 1000 exSepHybrid
+    (by rw [exHybridCenters]; simp) α β
+
+-- and the model evaluated on it: targets beyond one cell below (−1/5 < 1/10 − 11/40), inside, at a node,
+-- within one cell above (1 ≤ 31/40 + 2/5), beyond one cell above
+example : hybridToSigma exEps [0, 100, 50, 0] [0, 1 / 10, 1 / 2, 1] [-1 / 5, 0, 3 / 8, 1 / 2, 1, 6 / 5] 1000
+      ((hybridCenters ([0, 100, 50, 0] : List ℚ) [0, 1 / 10, 1 / 2, 1] 1000).map fun c => 2 + 5 * c)
+    = [none, some 2, some (2 + 5 * (3 / 8)), some (2 + 5 * (1 / 2)), some 7, none] := by decide +kernel
+
 -- horizontal: first minimum with a tie, nearest neighbour of a grid to itself, bilinear identity
 example : argminFirst ([3, 1, 2, 1] : List ℚ) = 1 := by decide +kernel
 example : nearest (fun p q : ℚ => (p - q) * (p - q)) [0, 1, 3] [0, 1, 3] = [0, 1, 2] := by
